@@ -121,6 +121,26 @@ Proof.
     exists x. split; [exact Hx'|]. exists q2. split; [apply fresh_dpath; [exact Hrr|exact Hd2]|]. rewrite fresh_seg by exact Hrr. reflexivity.
 Qed.
 
+Lemma fresh_ref_text j : j <> r -> ref_text T w' j = ref_text T w j.
+Proof. intros Hne. unfold ref_text. rewrite fresh_other by exact Hne. reflexivity. Qed.
+Lemma fresh_ref_text_self : ref_text T w' r = None.
+Proof. unfold ref_text. rewrite fresh_self. rewrite (leaf_no_cdata T _ Hleaf). destruct (isref T (n_type nr)); reflexivity. Qed.
+Lemma fresh_refset m x p i :
+  model_at w' m = Some x -> model_at w m = Some x -> (RefSet T w' m p i <-> RefSet T w m p i).
+Proof.
+  intros Hx' Hx. destruct (tf_roots _ HF _ _ Hx) as (nroot & Hroot & _).
+  assert (Hrr : m_root x <> r) by (intros E; rewrite E in Hroot; congruence).
+  assert (Hin : forall q, dpath T w (m_root x) i q -> i <> r).
+  { intros q Hd ->. destruct (dpath_alloc T _ _ _ _ Hd) as [E|(pp & Hc)]; [congruence|]. eapply fresh_not_child; eauto. }
+  unfold RefSet, MReach, reach. split.
+  - intros ((x1 & Hx1 & (q1 & Hd1)) & Ht). rewrite Hx' in Hx1. injection Hx1 as <-.
+    apply fresh_dpath in Hd1; [|exact Hrr]. split; [exists x; split; [exact Hx|exists q1; exact Hd1]|].
+    rewrite <- fresh_ref_text; [exact Ht|eapply Hin; eauto].
+  - intros ((x1 & Hx1 & (q1 & Hd1)) & Ht). rewrite Hx in Hx1. injection Hx1 as <-.
+    split; [exists x; split; [exact Hx'|exists q1; apply fresh_dpath; [exact Hrr|exact Hd1]]|].
+    rewrite fresh_ref_text; [exact Ht|eapply Hin; eauto].
+Qed.
+
 End Fresh.
 
 Theorem C04_new_model root_attrs w r w' :
